@@ -2,12 +2,12 @@
 (* Generator configuration of ElvSyntax: TLC expands the derivation state machine from
    Chunk with nesting fuel D,
      exhaustively (breadth first) over all leftmost derivations of at most S expansions, or
-     by seeded random walks (-simulate) of at most -depth expansions,
+     by seeded random walks (-simulate) of at most S expansions,
    and prints every completed program (token sequence) as one JSON array. *)
 EXTENDS ElvSyntax, TLC, Json
-CONSTANTS D, S
-Init == form = <<NT("Chunk", D)>>
-Next == Expand
-Bound == TLCGet("level") <= S
+CONSTANT S
+VARIABLE steps
+Init == form = <<NT("Chunk", D)>> /\ steps = 0
+Next == steps < S /\ Expand /\ steps' = steps + 1 /\ steps' + Need(form', 1) <= S
 Emit == Done => PrintT(ToJson(Tokens))
 =============================================================================
